@@ -39,6 +39,16 @@ def jobs_for(tier, rng):
             m["pk"][s][a][e] -= 1
         gen.fix_dups(m)
         jobs.append({"mdp": m, "tol": tol})
+    # a shipped problem through the same builder: Forest with a dyadic fire probability (tables = documented dynamics)
+    for S, pk_, r1, r2 in ([(3, 1, 4.0, 2.0), (7, 2, 2.5, 8.0)] if tier == "quick" else
+                          [(S, k, r1, r2) for S in (1, 2, 3, 5, 9, 16) for k in (0, 1, 3, 4) for r1, r2 in ((4.0, 2.0), (0.5, 16.0))]):
+        PD = 4
+        nxt = [[[min(s + 1, S - 1), 0], [0, 0]] for s in range(S)]
+        rew = [[[(r1 if s == S - 1 else 0.0)] * 2, [(r2 if s == S - 1 else (0.0 if s == 0 else 1.0))] * 2] for s in range(S)]
+        pk = [[[PD - pk_, pk_], [PD, 0]] for s in range(S)]
+        m = {"ns": S, "na": 2, "ne": 2, "next": nxt, "rew": [[[int(x * 2) for x in row] for row in sa] for sa in rew],
+             "pk": pk, "PD": PD, "rexp": 1, "v0": [0] * S, "v0exp": 0, "render": {}}
+        jobs.append({"mdp": m, "tol": [1, 10000], "forest": {"S": S, "r1": r1, "r2": r2, "p": pk_ / PD}})
     return jobs
 
 
